@@ -160,6 +160,7 @@ class SymExec:
         self.concrete_inputs = None
         self.uf = {}
         self.instr_ids = {}
+        self.affine = {}     # id(offset expr) -> (expr, index expr (64-bit), scale, constant): offset = scale*index + constant
 
     # ------------------------------------------------------------------
     def fresh_name(self, base):
@@ -245,13 +246,13 @@ class SymExec:
         kind = {'int': 'i', 'float': 'f', 'ptr': 'p'}[t.kind]
         off = ptr.off
         if is_sym(off):
-            cands = sorted(c for c, (cv, ck, cn) in o.cells.items() if cn == n)
+            cands = self.candidates(o, off, n, kind)
             if not cands:
                 raise Unsupported('symbolic-offset store with no candidate cells in %s' % o.name)
             self.memory_query(st, off, cands, 'store ' + o.name)
             for c in cands:
                 cv, ck, cn = o.cells[c]
-                o.cells[c] = (self.ite(off == z3.BitVecVal(c, 64), val, cv, t), ck, cn)
+                o.cells[c] = (self.ite(self.off_eq(off, c), val, cv, t), ck, cn)
             return
         if off < 0 or off + n > o.size:
             raise Unsupported('out-of-bounds store at %d (+%d) in %s of size %d' % (off, n, o.name, o.size))
@@ -265,6 +266,23 @@ class SymExec:
         if off in o.cells and o.cells[off][2] > n:
             self.split_cell(o, off)
         o.cells[off] = (val, kind, n)
+
+    def candidates(self, o, off, n, kind):
+        """cells a symbolic-offset access of n bytes may touch: same size, on the stride of an affine offset, and of the
+        accessed kind whenever the object holds cells of that kind at all"""
+        a = self.affine.get(off.get_id())
+        aff = a if (a is not None and a[0].eq(off)) else None
+        cands = []
+        for c, (cv, ck, cn) in o.cells.items():
+            if cn != n:
+                continue
+            if aff is not None and (c - aff[3]) % aff[2] != 0:
+                continue
+            cands.append(c)
+        same = [c for c in cands if o.cells[c][1] == kind]
+        if same:
+            cands = same
+        return sorted(cands)
 
     def split_cell(self, o, c):
         cv, ck, cn = o.cells[c]
@@ -289,7 +307,7 @@ class SymExec:
         n = self.L.size(t)
         off = ptr.off
         if is_sym(off):
-            cands = sorted(c for c, (cv, ck, cn) in o.cells.items() if cn == n)
+            cands = self.candidates(o, off, n, {'int': 'i', 'float': 'f', 'ptr': 'p'}[t.kind])
             if not cands:
                 if o.zero:
                     return self.zero_of(t)
@@ -297,7 +315,7 @@ class SymExec:
             self.memory_query(st, off, cands, 'load ' + o.name)
             val = self.cell_as(o.cells[cands[-1]], t)
             for c in reversed(cands[:-1]):
-                val = self.ite(off == z3.BitVecVal(c, 64), self.cell_as(o.cells[c], t), val, t)
+                val = self.ite(self.off_eq(off, c), self.cell_as(o.cells[c], t), val, t)
             return val
         if off < 0 or off + n > o.size:
             raise Unsupported('out-of-bounds load at %d (+%d) in %s of size %d' % (off, n, o.name, o.size))
@@ -439,11 +457,27 @@ class SymExec:
 
     def addoff(self, off, k):
         if is_sym(off):
-            return concretize(z3.simplify(off + z3.BitVecVal(k, 64)))
+            r = concretize(z3.simplify(off + z3.BitVecVal(k, 64)))
+            a = self.affine.get(off.get_id())
+            if a is not None and a[0].eq(off) and is_sym(r):
+                self.affine[r.get_id()] = (r, a[1], a[2], a[3] + k)
+            return r
         return off + k
 
+    def off_eq(self, off, c):
+        """condition offset == c; for offsets of the form scale*index + const (inbounds GEP: no wrap-around) the comparison is
+        made on the index, which keeps constant multiplications out of the solver"""
+        a = self.affine.get(off.get_id())
+        if a is not None and a[0].eq(off):
+            _, idx, scale, const = a
+            d = c - const
+            if d % scale != 0:
+                return z3.BoolVal(False)
+            return idx == z3.BitVecVal(d // scale, 64)
+        return off == z3.BitVecVal(c, 64)
+
     def memory_query(self, st, off, cands, what):
-        ok = z3.Or(*[off == z3.BitVecVal(c, 64) for c in cands])
+        ok = z3.Or(*[self.off_eq(off, c) for c in cands])
         ok = z3.simplify(ok)
         if z3.is_true(ok):
             return
@@ -577,7 +611,11 @@ class SymExec:
                 e = bv(ix, ity.bits)
                 if ity.bits < 64:
                     e = z3.SignExt(64 - ity.bits, e)
+                was_const = not is_sym(off)
+                base_c = off if was_const else None
                 off = concretize(z3.simplify(bv(off, 64) + e * z3.BitVecVal(scale, 64)))
+                if was_const and is_sym(off) and scale > 0:
+                    self.affine[off.get_id()] = (off, e, scale, base_c)
             else:
                 sx = to_signed(ix, ity.bits)
                 off = self.addoff(off, sx * scale)
@@ -600,7 +638,9 @@ class SymExec:
         t0 = time.time()
         try:
             s = self.solver()
-            for c in st.pc:
+            from .smt import slice_constraints
+            rel, _ = slice_constraints(st.pc, [cond])
+            for c in rel:
                 s.add(c)
             s.add(cond)
             r = s.check()
@@ -707,7 +747,12 @@ class SymExec:
             h = getattr(self, 'op_' + op, None)
             if h is None:
                 raise Unsupported('instruction %s' % op)
-            h(st, fr, ins, stack)
+            try:
+                h(st, fr, ins, stack)
+            except Unsupported as e:
+                if ' [at ' not in str(e):
+                    raise Unsupported('%s [at %s, IR line %d]' % (e, fr.fn.name[:60], ins.line))
+                raise
 
     def goto(self, st, fr, label):
         prev = fr.block.name
@@ -1490,6 +1535,11 @@ class SymExec:
         def candidates(o, off):
             if not is_sym(off):
                 return [off]
+            a = self.affine.get(off.get_id())
+            if a is not None and a[0].eq(off):
+                scale, const = a[2], a[3]
+                first = const % scale
+                return [c for c in range(first, o.size - n + 1, scale)]
             return [c for c in range(0, o.size - n + 1, n)]
         sc = candidates(so, src.off)
         dc = candidates(do, dst.off)
@@ -1497,11 +1547,23 @@ class SymExec:
             raise Unsupported('out-of-bounds memcpy source')
         if not is_sym(dst.off) and (dst.off < 0 or dst.off + n > do.size):
             raise Unsupported('out-of-bounds memcpy destination')
-        lay = layout(so, sc[0])
         geom = lambda l: [(r, nb) for r, k, nb in l]
+        # reference layout = the coarsest one; elements held as byte cells (memset / byte-wise writes) are coalesced to it
+        lays = {c: layout(so, c) for c in sc}
+        ref = min(lays.values(), key=lambda l: (len(l) == 0, len(l)))
+        for c in sc:
+            if geom(lays[c]) != geom(ref) and sum(x[2] for x in lays[c]) == n:
+                if so.const or so.shared:
+                    so = so.clone()
+                    so.const = False
+                    st.mem[src.obj] = so
+                    if src.obj == dst.obj:
+                        do = so
+                self.coalesce(so, c, ref)
+        lay = layout(so, sc[0])
         for c in sc[1:]:
-            if layout(so, c) != lay:
-                raise Unsupported('memcpy with symbolic source over non-uniform cells')
+            if geom(layout(so, c)) != geom(lay):
+                raise Unsupported('memcpy with symbolic source over non-uniform cells in %s size %d n %d at %d: %r vs %r' % (so.name, so.size, n, c, layout(so, c)[:6], lay[:6]))
         if sum(x[2] for x in lay) != n:
             raise Unsupported('memcpy with symbolic address over partly uninitialised/punned source')
         dlay = layout(do, dc[0]) if is_sym(dst.off) else None
@@ -1518,9 +1580,11 @@ class SymExec:
         vals = []
         for rel, kind, nb in lay:
             t = tymap[(kind, nb)]
-            v = so.cells[sc[-1] + rel][0]
+            def as_kind(cell):
+                return cell[0] if cell[1] == kind else self.cell_as(cell, t)
+            v = as_kind(so.cells[sc[-1] + rel])
             for c in reversed(sc[:-1]):
-                v = self.ite(src.off == z3.BitVecVal(c, 64), so.cells[c + rel][0], v, t)
+                v = self.ite(self.off_eq(src.off, c), as_kind(so.cells[c + rel]), v, t)
             vals.append((rel, kind, nb, t, v))
         if not is_sym(dst.off):
             for c in [c for c, (cv, ck, cn) in do.cells.items() if dst.off <= c < dst.off + n]:
@@ -1530,7 +1594,7 @@ class SymExec:
             return
         dkind = {r: k for r, k, nb in dlay}
         for c in dc:
-            cond = dst.off == z3.BitVecVal(c, 64)
+            cond = self.off_eq(dst.off, c)
             for rel, kind, nb, t, v in vals:
                 dk = dkind[rel]
                 dt = tymap[(dk, nb)]
@@ -1541,7 +1605,67 @@ class SymExec:
                 old = do.cells[c + rel][0]
                 do.cells[c + rel] = (self.ite(cond, v2, old, dt), dk, nb)
 
+    def memset_symbolic(self, st, dst, byte, n):
+        o = st.wobj(dst.obj)
+        a = self.affine.get(dst.off.get_id())
+        if a is None or not a[0].eq(dst.off):
+            raise Unsupported('memset at a non-affine symbolic address')
+        scale, const = a[2], a[3]
+        cands = [c for c in range(const % scale, o.size - n + 1, scale)]
+        self.memory_query(st, dst.off, cands, 'memset ' + o.name)
+        tymap = {('i', 1): llir.I8, ('i', 2): llir.int_ty(16), ('i', 4): llir.I32, ('i', 8): llir.I64, ('f', 8): llir.DOUBLE,
+                 ('f', 4): llir.FLOAT, ('p', 8): llir.PtrTy(llir.I8)}
+        for c in cands:
+            cond = self.off_eq(dst.off, c)
+            covered = 0
+            for cc in sorted(o.cells):
+                cv, ck, cn = o.cells[cc]
+                if cc + cn <= c or cc >= c + n:
+                    continue
+                if cc < c or cc + cn > c + n:
+                    raise Unsupported('memset with symbolic address partially covering a cell')
+                t = tymap[(ck, cn)]
+                if byte == 0:
+                    newv = self.zero_of(t)
+                elif ck == 'i':
+                    newv = sum((byte & 0xff) << (8 * i) for i in range(cn))
+                else:
+                    raise Unsupported('non-zero memset over non-integer cells at a symbolic address')
+                o.cells[cc] = (self.ite(cond, newv, cv, t), ck, cn)
+                covered += cn
+            if covered < n and not (byte == 0 and o.zero):
+                raise Unsupported('memset with symbolic address over uninitialised cells in %s' % o.name)
+
+    def coalesce(self, o, base, ref):
+        """rewrite the integer byte cells of the element at `base` into the scalar geometry `ref`"""
+        for rel, kind, nb in ref:
+            if (base + rel) in o.cells and o.cells[base + rel][2] == nb:
+                continue
+            parts = []
+            for i in range(nb):
+                b = self.byte_at(o, base + rel + i)
+                if b is None:
+                    return
+                parts.append(b)
+            for c in [c for c, (cv, ck, cn) in o.cells.items() if base + rel <= c < base + rel + nb]:
+                del o.cells[c]
+            if all(not is_sym(p_) for p_ in parts):
+                val = sum(p_ << (8 * i) for i, p_ in enumerate(parts))
+            else:
+                val = z3.Concat(*[bv(p_, 8) for p_ in reversed(parts)])
+            if kind == 'p':
+                if not is_sym(val) and val == 0:
+                    o.cells[base + rel] = (Ptr(0, 0), 'p', nb)
+                else:
+                    o.cells[base + rel] = (val, 'i', nb)
+            elif kind == 'f' and self.mode != 'real':
+                o.cells[base + rel] = (self.bits_to_fp(val, nb * 8), 'f', nb)
+            else:
+                o.cells[base + rel] = (val, 'i', nb)
+
     def memset(self, st, dst, byte, n):
+        if not is_sym(n) and not is_sym(byte) and is_sym(dst.off):
+            return self.memset_symbolic(st, dst, byte, n)
         if is_sym(n) or is_sym(byte) or is_sym(dst.off):
             raise Unsupported('memset with symbolic argument')
         o = st.wobj(dst.obj)
